@@ -121,9 +121,13 @@ func (ss *StructureSlot) generateAccessor(sc *StructureClass) {
 
 	slip.CurrentPackage.Define(
 		func(args slip.List) slip.Object {
-			ss.Function = slip.Function{Name: name, Args: args}
-			ss.Self = ss
-			return ss
+			// Each place in the code that calls the accessor gets an object
+			// of its own. Sharing the slot definition made every call site
+			// evaluate the arguments of the one compiled last.
+			f := *ss
+			f.Function = slip.Function{Name: name, Args: args}
+			f.Self = &f
+			return &f
 		},
 		&slip.FuncDoc{
 			Name: name,
